@@ -1,0 +1,105 @@
+//go:build verif
+
+// Contracts for package validator, read by /verif/qv (comment-only file; contains no executable code).
+// Syntax: see /verif/DESIGN.md section 2.2. Loop ordinals count for/range statements of the function in
+// source order; _iN is the hidden counter of range loop N when the loop has no named key.
+
+package validator
+
+//@ define isAll(r) := r.From == 0 && r.To == 0
+//@ define rangeOK(r, d) := isAll(r) || (0 <= r.From && r.From < r.To && r.To <= d)
+
+/* ---------------- accessors.go ---------------- */
+
+//@ func ValidateAtIndexAgainstDims
+//@   ensures[C09,C06] iff(err == nil, len(index) == len(dims) && forall(k, 0, len(index), 0 <= index[k] && index[k] < dims[k]))
+//@   loop 0 invariant len(index) == len(dims)
+//@   loop 0 invariant forall(k, 0, i, 0 <= index[k] && index[k] < dims[k])
+
+//@ func ValidateSliceIndexAgainstDims
+//@   ensures[C09,C06] iff(err == nil, len(index) <= len(dims) && forall(k, 0, len(index), rangeOK(index[k], dims[k])))
+//@   loop 0 invariant len(index) <= len(dims)
+//@   loop 0 invariant forall(k, 0, i, rangeOK(index[k], dims[k]))
+
+//@ func ValidatePatchIndexAgainstDims
+//@   ensures[C09,C06] iff(err == nil, len(srcDims) == len(dstDims)
+//@                  && forall(k, 0, len(srcDims), srcDims[k] <= dstDims[k])
+//@                  && len(index) <= len(dstDims)
+//@                  && forall(k, 0, len(index), rangeOK(index[k], dstDims[k]) && (isAll(index[k]) || index[k].To - index[k].From == srcDims[k])))
+//@   loop 0 invariant 0 <= i && i <= len(srcDims) && len(srcDims) == len(dstDims)
+//@   loop 0 invariant forall(k, 0, i, srcDims[k] <= dstDims[k])
+//@   loop 0 decreases len(srcDims) - i
+//@   loop 1 invariant len(srcDims) == len(dstDims) && forall(k, 0, len(srcDims), srcDims[k] <= dstDims[k])
+//@   loop 1 invariant len(index) <= len(dstDims) && forall(k, 0, len(index), rangeOK(index[k], dstDims[k]))
+//@   loop 1 invariant forall(k, 0, i, isAll(index[k]) || index[k].To - index[k].From == srcDims[k])
+
+/* ---------------- initializers.go ---------------- */
+
+//@ func ValidateInputDims
+//@   ensures[C09] iff(err == nil, forall(k, 0, len(dims), dims[k] > 0))
+//@   loop 0 invariant forall(k, 0, i, dims[k] > 0)
+
+//@ func ValidateRandUParams
+//@   ensures[C09,C18] iff(err == nil, l < u)
+
+//@ func ValidateRandNParams
+//@   ensures[C09,C18] iff(err == nil, s > 0)
+
+//@ func ValidateConcatTensorsDimsAlongDim
+//@   requires len(tsDims) >= 1
+//@   ensures[C09,C06] iff(err == nil, forall(a, 0, len(tsDims), len(tsDims[a]) > 0 && len(tsDims[a]) == len(tsDims[0])
+//@                  && 0 <= dim && dim < len(tsDims[0])
+//@                  && forall(b, 0, len(tsDims[a]), b == dim || tsDims[a][b] == tsDims[0][b])))
+//@   loop 0 invariant forall(a, 0, i, len(tsDims[a]) > 0 && len(tsDims[a]) == len(tsDims[0]) && 0 <= dim && dim < len(tsDims[0])
+//@                  && forall(b, 0, len(tsDims[a]), b == dim || tsDims[a][b] == tsDims[0][b]))
+//@   loop 1 invariant forall(a, 0, i, len(tsDims[a]) > 0 && len(tsDims[a]) == len(tsDims[0]) && 0 <= dim && dim < len(tsDims[0])
+//@                  && forall(b, 0, len(tsDims[a]), b == dim || tsDims[a][b] == tsDims[0][b]))
+//@   loop 1 invariant len(dims) > 0 && len(dims) == len(tsDims[0]) && 0 <= dim && dim < len(tsDims[0]) && 0 <= i && i < len(tsDims)
+//@   loop 1 invariant forall(b, 0, j, b == dim || dims[b] == tsDims[0][b])
+
+/* ---------------- operators.go ---------------- */
+
+//@ func ValidateBinaryFuncDimsMatch
+//@   ensures[C09,C03] iff(err == nil, len(dims1) == len(dims2) && forall(k, 0, len(dims1), dims1[k] == dims2[k]))
+//@   loop 0 invariant 0 <= i && i <= len(dims1) && len(dims1) == len(dims2)
+//@   loop 0 invariant forall(k, 0, i, dims1[k] == dims2[k])
+//@   loop 0 decreases len(dims1) - i
+
+//@ func ValidateDotProductDims
+//@   ensures[C09,C04] iff(err == nil, len(dims1) >= 1 && len(dims2) >= 1 && dims1[len(dims1)-1] == dims2[len(dims2)-1])
+
+//@ func ValidateMatMulDims
+//@   ensures[C09,C04] iff(err == nil, len(dims1) >= 2 && len(dims2) >= 2 && dims1[len(dims1)-1] == dims2[len(dims2)-2])
+
+/* ---------------- reducers.go ---------------- */
+
+//@ func ValidateReducedDimAgainstDims
+//@   ensures[C09,C05] iff(err == nil, 0 <= dim && dim < len(dims))
+
+/* ---------------- shape_modifiers.go ---------------- */
+
+//@ func ValidateTransposeDims
+//@   ensures[C09,C04] iff(err == nil, len(dims) >= 2)
+
+//@ func ValidateReshapeSourceDimsAgainstTargetDims
+//@   ensures[C09,C06] iff(err == nil, prod(srcDims, 0, len(srcDims)) == prod(dstDims, 0, len(dstDims)))
+
+//@ func ValidateUnSqueezeDimAgainstDims
+//@   ensures[C09,C06] iff(err == nil, 0 <= dim && dim <= len(dims))
+
+//@ func ValidateSqueezeDimAgainstDims
+//@   ensures[C09,C06] iff(err == nil, 0 <= dim && dim < len(dims) && dims[dim] == 1)
+
+//@ func ValidateFlattenDimAgainstDims
+//@   ensures[C09,C06] iff(err == nil, 0 <= dim && dim < len(dims))
+
+//@ func ValidateBroadcastSourceDimsAgainstTargetDims
+//@   ensures[C09,C03,C06] iff(err == nil, len(srcDims) <= len(dstDims)
+//@                  && forall(k, 0, len(srcDims), srcDims[k] == dstDims[k + len(dstDims) - len(srcDims)] || srcDims[k] == 1))
+//@   loop 0 invariant 0 <= i && i <= len(srcDims) && j - i == len(dstDims) - len(srcDims)
+//@   loop 0 invariant forall(k, i, len(srcDims), srcDims[k] == dstDims[k + len(dstDims) - len(srcDims)] || srcDims[k] == 1)
+//@   loop 0 decreases i
+
+//@ func dimsToNumElems
+//@   ensures elems == prod(dims, 0, len(dims))
+//@   loop 0 invariant elems == prod(dims, 0, _i0)
